@@ -23,7 +23,9 @@ import (
 func HarnessC01Pipeline() {
 	n := zz.Bound(2, 3)
 	s := kube.New()
-	pre := zzSetupComposed(s, n, "", false)
+	// (thorough: the third candidate's pre-state is fixed - it exists, is
+	// referenced and controlled by the XR; whether it is desired is symbolic)
+	pre := zzSetupComposedN(s, n, 2, "", false)
 
 	desired := make([]bool, n)
 	for i := range desired {
@@ -65,7 +67,13 @@ func HarnessC01Pipeline() {
 	// metadata.name of its own
 	// (a fresh name or the name the resource had in the pre-state; never the
 	// name of another composed resource, which no arrangement could honour)
-	switch zz.Choose("function.namesFirstResource", 3) {
+	namesChoice := 0
+	if !s.Faulted {
+		// (explored only when the first reconcile was not interrupted: the two
+		// dimensions are independent and their product is large)
+		namesChoice = zz.Choose("function.namesFirstResource", 3)
+	}
+	switch namesChoice {
 	case 1:
 		runner.steps[0].names = []string{"explicit-a"}
 		zz.Cover("explicit-name")
